@@ -312,7 +312,7 @@ Lemma shared_ok_sound : forall fs,
     In (FAcc pkg var path meth k fn line sy locked) fs ->
     (k = ARead -> locked = true) /\
     (k = AAddr -> sy = true) /\
-    (mutating k = true -> sy = true \/ (is_registry_table pkg var path = true /\ locked = true /\ k <> AAddr)).
+    (mutating k = true -> sy = true \/ (is_guarded_field pkg var path = true /\ locked = true /\ k <> AAddr)).
 Proof.
   intros fs H pkg var path meth k fn line sy locked Hin.
   unfold shared_ok in H. rewrite forallb_forall in H. specialize (H _ Hin). cbn in H.
